@@ -27,6 +27,8 @@ type c18Eval struct {
 	CA   []c18Coin `json:"ca,omitempty"`
 	CB   []c18Coin `json:"cb,omitempty"`
 	Den  string    `json:"den,omitempty"`
+	// Alias: the second operand is the very same object as the first (x.Add(x), A.Sub(A) ...)
+	Alias bool `json:"alias,omitempty"`
 }
 
 type c18Prog struct {
@@ -143,7 +145,7 @@ func genCoins(t *rapid.T, label string, dec bool) []c18Coin {
 			if dec {
 				bits = decBits
 			}
-			a = genInRange(t, label+".a", bits-1, false)
+			a = genInRange(t, label+".a", bits, false)
 			if a.Sign() == 0 {
 				a = big.NewInt(1)
 			}
@@ -171,24 +173,61 @@ func genC18Eval(t *rapid.T) c18Eval {
 		e.A = genInRange(t, "a", intBits, true).String()
 		e.B = genInRange(t, "b", intBits, true).String()
 		e.I64 = genI64(t)
+		if rapid.IntRange(0, 9).Draw(t, "alias") == 0 {
+			e.Alias, e.B = true, e.A
+		}
 	case 2:
 		e.Kind = "uint"
 		e.Op = rapid.SampledFrom(c18UintOps).Draw(t, "op")
 		e.A = genInRange(t, "a", uintBits, false).String()
 		e.B = genInRange(t, "b", uintBits, false).String()
 		e.I64 = genI64(t)
+		if rapid.IntRange(0, 9).Draw(t, "alias") == 0 {
+			e.Alias, e.B = true, e.A
+		}
 	case 3, 4, 5, 6:
 		e.Kind = "dec"
 		e.Op = rapid.SampledFrom(c18DecOps).Draw(t, "op")
 		genDecOperands(t, &e)
 		e.I64 = genI64(t)
+		if rapid.IntRange(0, 9).Draw(t, "alias") == 0 {
+			e.Alias, e.B = true, e.A
+		}
 	case 7, 8:
 		e.Kind = "coins"
 		e.Op = rapid.SampledFrom(c18CoinsOps).Draw(t, "op")
 		e.CA = genCoins(t, "ca", false)
 		e.CB = genCoinsRelated(t, "cb", e.CA, false)
 		e.Den = rapid.SampledFrom(c18Denoms).Draw(t, "den")
+		if rapid.IntRange(0, 9).Draw(t, "alias") == 0 {
+			e.Alias, e.CB = true, e.CA
+		}
 	default:
+		if rapid.IntRange(0, 2).Draw(t, "coin1") == 0 {
+			// a single Coin / DecCoin pair (Den carries "dec" for DecCoin)
+			e.Kind = "coin1"
+			e.Op = rapid.SampledFrom([]string{"Add", "Sub", "IsGTE", "IsLT", "IsEqual", "Preds"}).Draw(t, "op")
+			dec := rapid.Bool().Draw(t, "c1dec")
+			bits := intBits
+			if dec {
+				bits, e.Den = decBits, "dec"
+			}
+			da := rapid.SampledFrom(c18Denoms).Draw(t, "c1da")
+			db := da
+			if rapid.IntRange(0, 3).Draw(t, "c1other") == 0 {
+				db = rapid.SampledFrom(c18Denoms).Draw(t, "c1db")
+			}
+			a := genInRange(t, "c1a", bits, false)
+			b := genInRange(t, "c1b", bits, false)
+			if rapid.IntRange(0, 3).Draw(t, "c1near") == 0 {
+				b = new(big.Int).Add(a, big.NewInt(int64(rapid.IntRange(-1, 1).Draw(t, "c1d"))))
+				if b.Sign() < 0 || b.BitLen() > bits {
+					b = new(big.Int).Set(a)
+				}
+			}
+			e.CA, e.CB = []c18Coin{{D: da, A: a.String()}}, []c18Coin{{D: db, A: b.String()}}
+			return e
+		}
 		if rapid.Bool().Draw(t, "pw") {
 			e.Kind = "power"
 			e.Op = rapid.SampledFrom([]string{"ToPower", "FromPower"}).Draw(t, "op")
@@ -445,6 +484,8 @@ func execC18One(e *c18Eval, c *Case) (bool, *Violation) {
 		return c18DecCoins(e, c)
 	case "power":
 		return c18Power(e, c)
+	case "coin1":
+		return c18Coin1(e, c)
 	}
 	panic("harness: bad kind " + e.Kind)
 }
@@ -455,6 +496,9 @@ func c18Int(e *c18Eval, c *Case) (bool, *Violation) {
 		return false, nil // not a valid operand (only reachable by a hand-edited replay)
 	}
 	ia, ib := sdk.NewIntFromBigInt(new(big.Int).Set(a)), sdk.NewIntFromBigInt(new(big.Int).Set(b))
+	if e.Alias && a.Cmp(b) == 0 {
+		ib = ia
+	}
 	i64 := big.NewInt(e.I64)
 	var exact *big.Int
 	var got *big.Int
@@ -596,6 +640,9 @@ func c18Uint(e *c18Eval, c *Case) (bool, *Violation) {
 		return false, nil
 	}
 	ua, ub := sdk.NewUintFromBigInt(new(big.Int).Set(a)), sdk.NewUintFromBigInt(new(big.Int).Set(b))
+	if e.Alias && a.Cmp(b) == 0 {
+		ub = ua
+	}
 	u64 := uint64(e.I64)
 	bu := new(big.Int).SetUint64(u64)
 	var exact, got *big.Int
@@ -699,6 +746,9 @@ func c18Dec(e *c18Eval, c *Case) (bool, *Violation) {
 		return false, nil
 	}
 	da, db := sdk.Dec{Int: new(big.Int).Set(a)}, sdk.Dec{Int: new(big.Int).Set(b)}
+	if e.Alias && a.Cmp(b) == 0 {
+		db = da
+	}
 	i64 := big.NewInt(e.I64)
 	var exact, got *big.Int
 	var res callResult
@@ -880,6 +930,114 @@ func c18Dec(e *c18Eval, c *Case) (bool, *Violation) {
 	return nt, unmut()
 }
 
+// c18Coin1: operations on a single Coin / DecCoin pair
+func c18Coin1(e *c18Eval, c *Case) (bool, *Violation) {
+	if len(e.CA) != 1 || len(e.CB) != 1 {
+		return false, nil
+	}
+	dec := e.Den == "dec"
+	bits := intBits
+	if dec {
+		bits = decBits
+	}
+	a, b := mustBig(e.CA[0].A), mustBig(e.CB[0].A)
+	if a.Sign() < 0 || b.Sign() < 0 || a.BitLen() > bits || b.BitLen() > bits {
+		return false, nil
+	}
+	da, db := e.CA[0].D, e.CB[0].D
+	desc := fmt.Sprintf("coin1[dec=%v].%s(%s%s, %s%s)", dec, e.Op, a, da, b, db)
+	var gotAmt *big.Int
+	var gotDen string
+	var gotBool bool
+	var res callResult
+	if dec {
+		x, y := sdk.DecCoin{Denom: da, Amount: sdk.Dec{Int: new(big.Int).Set(a)}}, sdk.DecCoin{Denom: db, Amount: sdk.Dec{Int: new(big.Int).Set(b)}}
+		res = catch(func() {
+			switch e.Op {
+			case "Add":
+				r := x.Add(y)
+				gotAmt, gotDen = r.Amount.Int, r.Denom
+			case "Sub":
+				r := x.Sub(y)
+				gotAmt, gotDen = r.Amount.Int, r.Denom
+			case "IsGTE":
+				gotBool = x.IsGTE(y)
+			case "IsLT":
+				gotBool = x.IsLT(y)
+			case "IsEqual":
+				gotBool = x.IsEqual(y)
+			case "Preds":
+				gotBool = x.IsZero() == (a.Sign() == 0) && x.IsPositive() == (a.Sign() > 0) && !x.IsNegative()
+			}
+		})
+		if x.Amount.Int.Cmp(a) != 0 || y.Amount.Int.Cmp(b) != 0 {
+			return true, violf("C18/operand-mutated", "%s mutated an operand", desc)
+		}
+	} else {
+		x, y := sdk.Coin{Denom: da, Amount: sdk.NewIntFromBigInt(new(big.Int).Set(a))}, sdk.Coin{Denom: db, Amount: sdk.NewIntFromBigInt(new(big.Int).Set(b))}
+		res = catch(func() {
+			switch e.Op {
+			case "Add":
+				r := x.Add(y)
+				gotAmt, gotDen = r.Amount.BigInt(), r.Denom
+			case "Sub":
+				r := x.Sub(y)
+				gotAmt, gotDen = r.Amount.BigInt(), r.Denom
+			case "IsGTE":
+				gotBool = x.IsGTE(y)
+			case "IsLT":
+				gotBool = x.IsLT(y)
+			case "IsEqual":
+				gotBool = x.IsEqual(y)
+			case "Preds":
+				gotBool = x.IsZero() == (a.Sign() == 0) && x.IsPositive() == (a.Sign() > 0) && !x.IsNegative()
+			}
+		})
+		if x.Amount.BigInt().Cmp(a) != 0 || y.Amount.BigInt().Cmp(b) != 0 {
+			return true, violf("C18/operand-mutated", "%s mutated an operand", desc)
+		}
+	}
+	if e.Op == "Preds" {
+		if res.panicked || !gotBool {
+			return false, violf("C18/coin1/Preds", "%s: IsZero/IsPositive/IsNegative disagree with the amount (panic %v)", desc, res.pv)
+		}
+		return false, nil
+	}
+	if da != db {
+		// operations across denominations are refused; IsEqual may also simply answer false
+		if !res.panicked && !(e.Op == "IsEqual" && !gotBool) {
+			return true, violf("C18/coin1/"+e.Op+"/mixed-denominations", "%s returned a result (%v %v %s) instead of refusing", desc, gotBool, gotAmt, gotDen)
+		}
+		return true, nil
+	}
+	switch e.Op {
+	case "Add", "Sub":
+		exact := new(big.Int).Add(a, b)
+		if e.Op == "Sub" {
+			exact = new(big.Int).Sub(a, b)
+		}
+		if exact.Sign() < 0 || exact.BitLen() > bits {
+			if !res.panicked {
+				return true, violf("C18/coin1/"+e.Op+"/out-of-range-result", "%s: exact result %s is negative or not representable but no panic; got %v", desc, exact, gotAmt)
+			}
+			return true, nil
+		}
+		if res.panicked {
+			return false, violf("C18/coin1/"+e.Op+"/spurious-panic", "%s panicked: %v", desc, res.pv)
+		}
+		if gotAmt == nil || gotAmt.Cmp(exact) != 0 || gotDen != da {
+			return false, violf("C18/coin1/"+e.Op+"/wrong-result", "%s = %v%s want %s%s", desc, gotAmt, gotDen, exact, da)
+		}
+		return exact.Sign() == 0 || exact.BitLen() >= bits-1, nil
+	default:
+		want := map[string]bool{"IsGTE": a.Cmp(b) >= 0, "IsLT": a.Cmp(b) < 0, "IsEqual": a.Cmp(b) == 0}[e.Op]
+		if res.panicked || gotBool != want {
+			return false, violf("C18/coin1/"+e.Op+"/wrong-result", "%s = %v (panic %v) want %v", desc, gotBool, res.pv, want)
+		}
+		return a.Cmp(b) == 0, nil
+	}
+}
+
 func c18Power(e *c18Eval, c *Case) (bool, *Violation) {
 	switch e.Op {
 	case "ToPower":
@@ -1028,11 +1186,14 @@ func amt(m map[string]*big.Int, d string) *big.Int {
 }
 
 func c18Coins(e *c18Eval, c *Case) (bool, *Violation) {
-	if !coinsValidInput(e.CA, intBits-1) || !coinsValidInput(e.CB, intBits-1) {
+	if !coinsValidInput(e.CA, intBits) || !coinsValidInput(e.CB, intBits) {
 		return false, nil
 	}
 	A, ma := toCoins(e.CA)
 	B, mb := toCoins(e.CB)
+	if e.Alias && mapsEqual(ma, mb) {
+		B = A // the same slice and the same Int objects
+	}
 	if !A.IsValid() || !B.IsValid() {
 		return false, violf("C18/coins/IsValid", "canonical operand rejected by IsValid: %v %v", A, B)
 	}
@@ -1277,7 +1438,7 @@ func decCoinsToMap(cs sdk.DecCoins) (map[string]*big.Int, bool) {
 }
 
 func c18DecCoins(e *c18Eval, c *Case) (bool, *Violation) {
-	if !coinsValidInput(e.CA, decBits-1) || !coinsValidInput(e.CB, decBits-1) {
+	if !coinsValidInput(e.CA, decBits) || !coinsValidInput(e.CB, decBits) {
 		return false, nil
 	}
 	A, ma := toDecCoins(e.CA)
